@@ -374,12 +374,15 @@ class Gen:
             path, vals = self.choice(paths)
         return {"op": "set_params", "c": i, "path": path, "value": self.choice(vals)}
 
-    def cuts(self, sim, cl):
+    def cuts(self, sim, cl, n=None):
         r = self.rng
         obj = cl.obj
         k = getattr(obj, "expected_cut_entries", 2)
+        n0 = n
         n = 10
-        if isinstance(cl.lin, list) and hasattr(cl.lin[0][0], "__len__"):
+        if n0:
+            n = n0
+        elif isinstance(cl.lin, list) and hasattr(cl.lin[0][0], "__len__"):
             n = max(1, len(cl.lin[0][0]))
         try:
             ms = obj.min_size or 1
@@ -471,6 +474,11 @@ class Gen:
                 j = todo.pop(0)
                 self.after_mutate = (d, todo) if todo else None
                 self.last_changer = j
+                if r.random() < 0.4:
+                    # ... or are used on it without a refit (judged either way)
+                    cj = sim.clients[j]
+                    if cj.is_det:
+                        return {"op": self.choice(["predict", "transform", "transform_scores"]), "c": j, "d": d}
                 return {"op": "fit", "c": j, "d": d}
             self.after_mutate = None
         if self.follow is not None:
@@ -579,6 +587,8 @@ class Gen:
                     st["fault"] = {"kind": "flaky", "site": site, "at": 1 + int(frac * counts[site])}
                 elif L > 0:
                     st["fault"] = {"kind": "interrupt", "at": 1 + int(frac * L)}
+                    if r.random() < 0.3:
+                        st["fault"]["alloc"] = True
         if st["op"] in ("fit", "update", "update_predict", "fit_predict", "fit_transform", "set_params", "clone", "reset"):
             self.last_changer = st.get("c")
         if st["op"] in ("fit", "fit_predict", "fit_transform", "update", "update_predict") and st.get("c") is not None and st["c"] < len(sim.clients) and sim.clients[st["c"]].is_det:
